@@ -155,3 +155,18 @@ pub fn ulp(x: f64) -> f64 {
         a - next_down(a)
     }
 }
+
+/// Deep recursion in the library (quickselect on long runs of equal elements
+/// recurses once per element) needs more stack than a default thread has.
+pub const BIG_STACK: usize = 1 << 30;
+
+pub fn with_big_stack<R: Send>(f: impl FnOnce() -> R + Send) -> R {
+    std::thread::scope(|s| {
+        std::thread::Builder::new()
+            .stack_size(BIG_STACK)
+            .spawn_scoped(s, f)
+            .expect("spawn thread")
+            .join()
+            .unwrap_or_else(|e| std::panic::resume_unwind(e))
+    })
+}
